@@ -135,8 +135,12 @@ def run(out, rng, tier, args):
                   ("stdin-explicit", dict(text=fc.text), ["--input-format", fc.fmt]),
                   ("file-explicit-odd-extension", dict(path_text=fc.text, ext=rng.choice([".txt", "", ".dat"])), ["--input-format", fc.fmt]),
                   ("file-auto-odd-extension", dict(path_text=fc.text, ext=rng.choice([".txt", ""])), []),
-                  ("output-file", dict(path_text=fc.text, ext=ext, out_file=True), [])]
-        for nm, kw, extra in rng.sample(routes, 2 if tier != "thorough" else 5):
+                  ("output-file", dict(path_text=fc.text, ext=ext, out_file=True), []),
+                  ("output-file-already-exists", dict(path_text=fc.text, ext=ext, out_file=True,
+                                                      prefill=base["stdout"] + " " * 50 + base["stdout"] * 3), []),
+                  ("file-explicit-misleading-extension",
+                   dict(path_text=fc.text, ext={"json": ".efg", "gambit": ".json"}[fc.fmt]), ["--input-format", fc.fmt])]
+        for nm, kw, extra in rng.sample(routes, 3 if tier != "thorough" else 7):
             r = cli.run_cli(a + extra, name="c16_%d" % fc.cid, **kw)
             got = r["outfile"] if kw.get("out_file") else r["stdout"]
             out.count("route_" + nm)
